@@ -28,6 +28,46 @@ type MCase struct {
 	// Then, if set, is a second change of the same patch file: it must treat the code the first change
 	// generated like any other code (judged with the sequence model).
 	Then *model.Change `json:"then,omitempty"`
+	// NoInstance: the generator built the file so that it contains no instance of the pattern under any reading of
+	// the pattern language (used where the reference model does not define the pattern form); the file must come
+	// back syntactically unchanged, or the patch be rejected.
+	NoInstance bool `json:"no_instance,omitempty"`
+}
+
+// judgeNoInstance: a file without instances is returned unchanged by the library and by the command line.
+func judgeNoInstance(env *core.Env, c *MCase) core.Outcome {
+	text := c.Change.Render()
+	want, err := canon.Source([]byte(c.File), canon.Options{KeepParens: true})
+	if err != nil {
+		panic("generator produced an unparseable file: " + err.Error())
+	}
+	o := core.Outcome{Class: "no-instance", Nontrivial: true}
+	for i, run := range []toolRunner{apiRunner, cliRunner(env), cliRunnerReal(env)} {
+		out, aerr, rejected := run(text, c)
+		if rejected != "" {
+			return core.Outcome{Skip: rejected}
+		}
+		got := ""
+		if aerr == nil {
+			got, err = canon.Source(out, canon.Options{KeepParens: true})
+			if err != nil {
+				got = "unparseable: " + err.Error()
+			}
+		}
+		if aerr == nil && got == want {
+			if i == 0 {
+				continue
+			}
+			return o // the command line agrees (driver, or the real binary after a driver-only disagreement)
+		}
+		if i == 1 {
+			continue // confirm with the real binary
+		}
+		o.FindingKey = "non-instance-rewritten"
+		o.Violation = fmt.Sprintf("the file contains no instance of the pattern but was not returned unchanged (interface %d, error %v)\n--- patch:\n%s--- file:\n%s--- output:\n%s", i, aerr, text, c.File, out)
+		return o
+	}
+	return o
 }
 
 // mverdict is the comparison of the model's prediction with gopatch.
